@@ -350,6 +350,18 @@ def stepLine (s : DState) (w : List String) : DState × String :=
       | some b =>
         let r := decodeBuf slot b
         ({ s with decs := upsert s.decs d { r.1 with last := r.2 } }, showPackets r.2)
+    -- a buffer of n bytes (n may exceed 2^31): the given bytes followed by zeros.  The generator only emits prefixes that END in a
+    -- segmented message whose declared payload lies inside the prefix: the walk stops at the first segmented message and bytes behind
+    -- a segment's declared length never enter it (C05b.segFrame_parse, C17S.parseFrame_seg_wire), so the answer does not depend on how
+    -- many zeros follow and the model is asked with 64 of them instead of 2^31
+    | ["feedhuge", n, hx] =>
+      match parseBytes hx with
+      | none => (s, "bad-op")
+      | some b =>
+        if nat! n < b.length then (s, "bad-op")
+        else
+          let r := decodeBuf slot (b ++ zeros (min (nat! n - b.length) 64))
+          ({ s with decs := upsert s.decs d { r.1 with last := r.2 } }, showPackets r.2)
     | ["null"] => ({ s with decs := upsert s.decs d { slot with last := [] } }, showPackets [])
     | ["reprint"] => (s, showPackets slot.last)
     | ["destroy"] => ({ s with decs := upsert s.decs d { slot with st := DecState.empty, eps := [] } }, "ok")
